@@ -666,6 +666,8 @@ pub fn parse_content<'input>(
     // Nested elements are tracked here and not via recursion,
     // so that deeply nested documents cannot exhaust the stack.
     let mut depth: usize = 0;
+    #[cfg(roxmltree_verif)]
+    let _verif_depth = crate::verif::DepthGuard::new(0);
     while !s.at_end() {
         match s.curr_byte() {
             Ok(b'<') => match s.next_byte() {
@@ -1201,4 +1203,17 @@ impl<'input> Stream<'input> {
 
         col
     }
+}
+
+#[cfg(roxmltree_verif)]
+pub(crate) fn verif_char_class(c: char) -> u8 {
+    (c.is_xml_name_start() as u8) | (c.is_xml_name() as u8) << 1 | (c.is_xml_char() as u8) << 2
+}
+
+#[cfg(roxmltree_verif)]
+pub(crate) fn verif_byte_class(b: u8) -> u8 {
+    (b.is_xml_space() as u8)
+        | (b.is_xml_name_start() as u8) << 1
+        | (b.is_xml_name() as u8) << 2
+        | (b.is_xml_char() as u8) << 3
 }
